@@ -113,15 +113,17 @@ fn scope(p: &P) -> Result<(), &'static str> {
             let mut seen = std::collections::BTreeSet::new();
             for (k, v) in kvs {
                 match k {
-                    P::Null => return Err("null-key"),
-                    P::Float(f) if f.is_nan() => return Err("nan-key"),
-                    P::Arr(_) | P::Obj(_) => return Err("container-key"),
+                    // no Lua key: the conversion must refuse these (F15, fixed)
+                    P::Null => {}
+                    P::Float(f) if f.is_nan() => {}
+                    P::Arr(_) | P::Obj(_) | P::Bytes(_) => return Err("container-key"),
                     P::Opaque(w) => return Err(w),
-                    _ => {}
-                }
-                let key = p_key(k).map_err(|_| "bad-key")?;
-                if !seen.insert(key) {
-                    return Err("keys-equal-in-lua");
+                    _ => {
+                        let key = p_key(k).map_err(|_| "bad-key")?;
+                        if !seen.insert(key) {
+                            return Err("keys-equal-in-lua");
+                        }
+                    }
                 }
                 scope(v)?;
             }
@@ -131,20 +133,14 @@ fn scope(p: &P) -> Result<(), &'static str> {
     }
 }
 
-/// F14 (property C13, `write_long_bracket`): a string that takes the long-bracket path
-/// (>= 20 bytes, only graphic ASCII / space / newline, and >= 60 bytes or >= 6 newlines) and
-/// contains `]` may be closed early. Text-level failures on such documents are C13's.
-fn f14_region(p: &P) -> bool {
-    fn eligible(s: &[u8]) -> bool {
-        s.len() >= 20
-            && s.iter().all(|c| c.is_ascii_graphic() || *c == b' ' || *c == b'\n')
-            && (s.len() >= 60 || s.iter().filter(|c| **c == b'\n').count() >= 6)
-            && s.contains(&b']')
-    }
+/// some object, at any depth, has a null or NaN key: no Lua table can hold the data, the
+/// conversion has to refuse (and may refuse for no other reason)
+fn has_keyless_entry(p: &P) -> bool {
     match p {
-        P::Str(s) => eligible(s.as_bytes()),
-        P::Arr(xs) => xs.iter().any(f14_region),
-        P::Obj(kvs) => kvs.iter().any(|(k, v)| f14_region(k) || f14_region(v)),
+        P::Arr(xs) => xs.iter().any(has_keyless_entry),
+        P::Obj(kvs) => kvs.iter().any(|(k, v)| {
+            matches!(k, P::Null) || matches!(k, P::Float(f) if f.is_nan()) || has_keyless_entry(k) || has_keyless_entry(v)
+        }),
         _ => false,
     }
 }
@@ -162,6 +158,8 @@ struct Real {
 enum Parsed {
     Rejected(String),
     Ok(Real),
+    /// `to_expression` returned an error
+    Refused(D, P, String),
     Failed(String),
 }
 
@@ -181,7 +179,7 @@ fn run_real<T: serde::Serialize>(value: &T, parsed: P) -> Parsed {
             lua::expr_sexp(&expr, true, &mut s);
             Parsed::Ok(Real { data, expr: s, text, parsed })
         }
-        Ok(Err(e)) => Parsed::Failed(format!("error: {}", e)),
+        Ok(Err(e)) => Parsed::Refused(data, parsed, e),
         Err(_) => Parsed::Failed("panic".to_owned()),
     }
 }
@@ -338,6 +336,25 @@ struct Ctx<'a> {
 }
 
 impl<'a> Ctx<'a> {
+    /// the real serializer returned an error: allowed exactly when some key is null or NaN
+    /// (oracle, judged on the parsed data), and the model must refuse as well (correspondence)
+    fn refused(&mut self, data: D, parsed: P, err: String, input: Value) {
+        self.report.hist("refused", err.split(" [").next().unwrap_or("?"));
+        let mut oracle_failed = false;
+        if !has_keyless_entry(&parsed) {
+            oracle_failed = true;
+            let what = format!("the conversion refused a document every key of which denotes a Lua key: {}", err);
+            self.violation("oracle", "conversion-succeeds", what, input.clone(), true);
+        }
+        let d_sexp = data.to_sexp();
+        let model = self.model.ask(&format!("c14.ser {}", d_sexp));
+        if model != "refused" && !oracle_failed {
+            let mut input = input;
+            input["data"] = json!(d_sexp);
+            self.violation("correspondence", "toExpr-vs-to_expression", format!("real: error {} / model {}", err, clip(&model)), input, false);
+        }
+        self.case(Some(format!("refused:{}", d_sexp)));
+    }
     fn case(&mut self, key: Option<String>) {
         self.keys.push(key.map(|k| crate::report::hash_of(&k)));
     }
@@ -434,7 +451,9 @@ impl<'a> Ctx<'a> {
             }
         }
         // oracle first: a failure of the property itself is the stronger finding
-        let oracle = if case.origin["kind"] == "serde" && !in_h {
+        let oracle = if has_keyless_entry(&case.real.parsed) {
+            Err(("refuses-null-and-nan-keys".to_owned(), "a document with a null or NaN key was converted (the table constructor raises when run)".to_owned()))
+        } else if case.origin["kind"] == "serde" && !in_h {
             Ok(())
         } else if case.origin["kind"] == "serde" {
             self.oracle_serde(&case)
@@ -442,13 +461,6 @@ impl<'a> Ctx<'a> {
             self.oracle(&case, in_h)
         };
         let mut oracle_failed = false;
-        let oracle = match oracle {
-            Err(_) if f14_region(&case.real.parsed) => {
-                self.report.hist("excluded", "text check failed in the F14 region (C13): long-bracket string containing ]");
-                Ok(())
-            }
-            other => other,
-        };
         if let Err((check, what)) = oracle {
             oracle_failed = true;
             let mut input = case.origin.clone();
@@ -574,6 +586,10 @@ fn doc_case(ctx: &mut Ctx, fmt: Fmt, text: &str, intent: Option<P>, tag: &str) {
             let input = json!({"kind": tag, "format": fmt.name(), "text": text});
             ctx.violation("oracle", "conversion-succeeds", format!("convert_data failed on a parsed document: {}", e), input, true);
         }
+        Parsed::Refused(data, parsed, e) => {
+            let input = json!({"kind": tag, "format": fmt.name(), "text": text});
+            ctx.refused(data, parsed, e, input);
+        }
         Parsed::Ok(real) => {
             let origin = json!({"kind": tag, "format": fmt.name(), "text": text});
             let key = format!("{}:{}", fmt.name(), real.expr);
@@ -596,7 +612,11 @@ fn serde_case(ctx: &mut Ctx, s: &S) {
         }
         Parsed::Failed(e) => {
             let input = json!({"kind": "serde", "value": format!("{:?}", s)});
-            ctx.violation("correspondence", "to_expression-total", format!("the real serializer failed where the model is total: {}", e), input, false);
+            ctx.violation("correspondence", "to_expression-total", format!("the real serializer panicked: {}", e), input, false);
+        }
+        Parsed::Refused(data, parsed, e) => {
+            let input = json!({"kind": "serde", "value": format!("{:?}", s)});
+            ctx.refused(data, parsed, e, input);
         }
         Parsed::Rejected(_) => {}
     }
@@ -693,9 +713,6 @@ fn bundle_case(ctx: &mut Ctx, fmt: Fmt, text: &str) {
             }
             ctx.report.count("bundle_checked", 1);
         }
-        _ if f14_region(&real.parsed) => {
-            ctx.report.hist("excluded", "text check failed in the F14 region (C13): long-bracket string containing ]")
-        }
         Ok(b) => {
             let what = format!("bundle inlines {} but convert emits {}", clip(&b), clip(&convert_expr));
             ctx.violation("oracle", "bundle-same-as-convert", what, input, true);
@@ -711,9 +728,6 @@ fn txt_case(ctx: &mut Ctx, content: &str) {
     let input = json!({"kind": "bundle", "format": "txt", "text": content});
     match bundle_expr("txt", content) {
         Ok(b) if b == expected => ctx.report.count("bundle_checked", 1),
-        _ if f14_region(&P::Str(content.to_owned())) => {
-            ctx.report.hist("excluded", "text check failed in the F14 region (C13): long-bracket string containing ]")
-        }
         Ok(b) => ctx.violation("oracle", "txt-is-the-file-content", format!("inlined {} expected {}", clip(&b), clip(&expected)), input, true),
         Err(e) => ctx.violation("oracle", "bundle-succeeds", e, input, true),
     }
@@ -722,6 +736,9 @@ fn txt_case(ctx: &mut Ctx, content: &str) {
 
 fn replay_known(ctx: &mut Ctx) {
     for f in known_findings("C14") {
+        if f["status"] != "known" {
+            continue; // fixed entries suppress nothing; their witnesses live in corpus/C14 and must pass
+        }
         let id = f["id"].as_str().unwrap_or("?").to_owned();
         let w = &f["witness"];
         let fmt = match w["format"].as_str().and_then(Fmt::from_name) {
